@@ -139,7 +139,9 @@ def collection_spec(draw, ctype=None, paths="plain"):
         # distinct tags whose label/value collide under naive joining or normalisation
         sep = draw(st.sampled_from([":", ",", "|", " ", "=", "/", "-", "_", ""]))
         extra = [["taxon", f"genus{sep}Myotis"], [f"taxon{sep}genus", "Myotis"], ["Taxon", f"genus{sep}Myotis"], ["taxon", f"genus{sep}myotis"], ["taxon ", f"genus{sep}Myotis"]]
-        for t in draw(st.permutations(extra))[: draw(st.integers(2, 4))]:
+        # unicode look-alikes: canonically / compatibility-equivalent but distinct strings
+        extra += [["island", "R\u00e9union"], ["island", "Re\u0301union"], ["\u212bngstr\u00f6m", "x"], ["\u00c5ngstr\u00f6m", "x"], ["lig", "\ufb01sh"], ["lig", "fish"], ["w", "\uff21"], ["w", "A"]]
+        for t in draw(st.permutations(extra))[: draw(st.integers(2, 5))]:
             if t not in tags:
                 tags.append(t)
     ntg = len(tags)
